@@ -774,7 +774,8 @@ theorem handleRequest_inv {srv : Server} (h : WFc srv) (hN : NoLeak srv) (cfg : 
   rw [heq] at this
   dsimp only
   split
-  · exact closeConn_inv this.1 this.2 _
+  · obtain ⟨a, b⟩ := arm_inv this.1 this.2 srv cn.id
+    exact closeConn_inv a b _
   · obtain ⟨a, b⟩ := setMode_inv this.1 this.2 cn.id res.err
     exact arm_inv a b _ _
 
